@@ -181,14 +181,22 @@ func (b *ByteBuffer) Saved() []byte {
 
 // SavedSlot ...
 func (b *ByteBuffer) SavedSlot(slot Slot) []byte {
+	if !b.inSaveArea(slot) {
+		return nil
+	}
 	return b.data[slot.Index : slot.Index+slot.Length]
+}
+
+// inSaveArea returns true if the slot is non-empty and lies completely in the save area.
+func (b *ByteBuffer) inSaveArea(slot Slot) bool {
+	return slot.Length > 0 && slot.Index >= 0 && slot.Length <= b.si && slot.Index <= b.si-slot.Length
 }
 
 // Discard a previously saved slot.
 //
 // This call reduces the save area by slot.Length. Returns slot.Length.
 func (b *ByteBuffer) Discard(slot Slot) (discarded int) {
-	if slot.Length <= 0 {
+	if !b.inSaveArea(slot) {
 		return 0
 	}
 
